@@ -1526,3 +1526,66 @@ def rule_chainmisc(text):
     text, a = _method_to_fn(text, "max", "max_u64", "R-arith", "definition of Ord::max on u64 (verified shim)")
     apps += a
     return text, apps
+
+
+def rule_sig_mig(text):
+    apps = []
+    for pat, rep, why in ((r"&\s*Path\b", "&PathH", "opaque handle for a path"), (r"\bPathBuf\b", "PathH", "opaque handle for a path")):
+        while True:
+            mm = re.search(pat, text)
+            if not mm:
+                break
+            apps.append(_app("R-handle", text, mm.start(), mm.end(), rep, why))
+            text = text[:mm.start()] + rep + text[mm.end():]
+    return text, apps
+
+
+def rule_migmisc(text):
+    """offline-migration one-offs (migration.rs)"""
+    apps = []
+    ws = r"\s*"
+    # fs::hard_link(A, B).map_err(|source| { ... })?   ->   fs_hard_link(A, B)?
+    while True:
+        m = mask(text)
+        mm = re.search(r"fs\s*::\s*hard_link\s*\(", m)
+        if not mm:
+            break
+        op = mm.end() - 1
+        cl = match_close(m, op)
+        t = re.match(r"\s*\.\s*map_err\s*\(", m[cl + 1:])
+        if not t:
+            break
+        op2 = cl + 1 + t.end() - 1
+        cl2 = match_close(m, op2)
+        new = "fs_hard_link(" + text[op + 1:cl] + ")"
+        apps.append(_app("R-fs", text, mm.start(), cl2 + 1, new, "shim: fs::hard_link with its error mapped to DestinationExists (AlreadyExists) or Io; never replaces an existing name"))
+        text = text[:mm.start()] + new + text[cl2 + 1:]
+    table = [
+        (r"(FileStamp\s*::\s*read_regular\s*\([^()]*\)\s*\?)" + ws + r"\." + ws + r"as_ref\(\)" + ws + r"!=" + ws + r"Some\((\w+)\)", r"!stamp_is(&\1, \2)", "R-stampeq", "shim: comparison of an optional file stamp with the expected one"),
+        (r"(\w+)" + ws + r"\." + ws + r"as_ref\(\)" + ws + r"==" + ws + r"Some\((\w+)\)", r"stamp_is(&\1, \2)", "R-stampeq", "shim: comparison of an optional file stamp with the expected one"),
+        (r"fs\s*::\s*remove_file\s*\(", "fs_remove_file(", "R-fs", "shim: fs::remove_file"),
+        (r"(\w+)\s*\.\s*as_deref\s*\(\s*\)", r"opt_as_slice(&\1)", "R-asderef", "shim: Option<Vec<u8>>::as_deref"),
+        (r"let" + ws + r"Some\(last\)" + ws + r"=" + ws + r"records\.last\(\)" + ws + r"else" + ws + r"\{" + ws + r"break;" + ws + r"\};" + ws + r"after" + ws + r"=" + ws + r"Some\(last\.key\.clone\(\)\);",
+         "if records.len() == 0 { break; } after = Some(vec_clone_u8(&records[records.len() - 1].key));", "R-last", "definition of slice::last with a diverging else, and of cloning the last key"),
+        (r"(\w+)" + ws + r"=" + ws + r"(\w+)\.last\(\)\.map\(\|record\|" + ws + r"record\.key\.clone\(\)\);",
+         r"\1 = if \2.len() == 0 { None } else { Some(vec_clone_u8(&\2[\2.len() - 1].key)) };", "R-last", "definition of slice::last + Option::map cloning the last key"),
+        (r"for" + ws + r"\((\w+)," + ws + r"(\w+)\)" + ws + r"in" + ws + r"(\w+)\.into_iter\(\)\.zip\((\w+)\)" + ws + r"\{",
+         r"let mut zi_: usize = 0; while zi_ < \3.len() && zi_ < \4.len() { let \1 = Arc::clone(&\3[zi_]); let \2 = Arc::clone(&\4[zi_]); zi_ = zi_ + 1;", "R-zip",
+         "definition of zipping two Vecs by value: pairs at equal positions, up to the shorter length"),
+        (r"(\w+)\.key" + ws + r"==" + ws + r"(\w+)\.key\b", r"vec_eq_u8(&\1.key, &\2.key)", "R-seq", "shim: byte-wise comparison of two keys"),
+        (r"\b(visited|records)" + ws + r"\+=" + ws + r"1" + ws + r";", r"\1 = count_up(\1);", "R-count", "a u64 progress counter incremented once per record: treated as non-overflowing (2^64 records are unreachable); wrapping semantics of release builds"),
+        (r"(source\.resolve_value_ref\([^?]*\)\?)" + ws + r"!=" + ws + r"(destination" + ws + r"\." + ws + r"resolve_value_ref\([^?]*\)\?)", r"bytes_ne(&\1, &\2)", "R-seq", "shim: byte-wise comparison of two values"),
+    ]
+    for pat, rep, rname, why in table:
+        n = 0
+        while n < 8:
+            n += 1
+            mm = re.search(pat, text)
+            if not mm:
+                break
+            new = mm.expand(rep)
+            if new == text[mm.start():mm.end()]:
+                break
+            apps.append(_app(rname, text, mm.start(), mm.end(), new, why))
+            text = text[:mm.start()] + new + text[mm.end():]
+    return text, apps
